@@ -39,7 +39,24 @@ func fieldOfValue(v ssa.Value, field *types.Var, base func(ssa.Value) bool) bool
 			return false
 		}
 		if base != nil && !base(b) {
-			return false
+			// the holder may come out of a producing helper: judge what the helper returns
+			bv, bunk := Origins(b)
+			if bunk || len(bv) == 0 {
+				return false
+			}
+			nb := 0
+			for _, ob := range bv {
+				if IsNilConst(ob) {
+					continue // the helper's error path; a field of nil cannot be loaded
+				}
+				nb++
+				if ob == b || !base(ob) {
+					return false
+				}
+			}
+			if nb == 0 {
+				return false
+			}
 		}
 	}
 	return true
